@@ -1022,6 +1022,7 @@ STREAMS['probes_c05'] = probes_c05
 def probes_c06(tier, seed, ci, nc):
     yield ('rt:probes_c06',)
     yield ('rt:dflt_callee',)
+    yield ('rt:source_changed',)     # discovery = the declaration for the call shape written NOW (same file name and line, new text)
 
 
 STREAMS['probes_c06'] = probes_c06
@@ -1263,8 +1264,16 @@ def partialfwd(tier, seed, ci, nc, count=400):
     rng = _rng(seed, 'partialfwd', ci)
     univ = [s for s in U('xy', 2) if not any(p[0] in ('a', 'cb', 'target', 'args', 'kwargs') and p[1] not in ('vp', 'vk') for p in s)]
     for k in range(count // nc):
-        tmpl = ('posparam', 'kwdefault', 'kwbound', 'globnone', 'globkw', 'globpos', 'kwleading', 'nestedpartial', 'hintkwo', 'hintposo', 'nestedkw')[k % 11]
+        tmpl = ('posparam', 'kwdefault', 'kwbound', 'globnone', 'globkw', 'globpos', 'kwleading', 'nestedpartial', 'hintkwo', 'hintposo', 'nestedkw', 'falsylen', 'falsybool')[k % 13]
         yield ('rt:partialfwd', tmpl, rng.choice(univ), rng.choice(univ), rng.choice([0, 0, 1]))
 
 
 STREAMS['partialfwd'] = partialfwd
+
+
+def probes(tier, seed, ci, nc, items=()):
+    """named runtime probes (harness/real_r7.py and friends), one request each"""
+    return _slice(iter([('rt:' + it,) for it in items]), ci, nc)
+
+
+STREAMS['probes'] = probes
